@@ -42,3 +42,6 @@ MANIFEST_ENTRY = {
             "values and selections against the definition; request histories sharing a cache id against uncached requests; planes shown by image layer states.",
     "note": "Level is exploration: the nearest-pixel arithmetic is numpy code that is only swept, and 'equal keys imply equal buffers' rests on it.",
 }
+
+MANIFEST_ENTRY['text'] += " The array-cache key is proved to hold the selection object itself (not a number standing for it) and a bounds entry that is not the caller's own list."
+TRUSTED_BASE.append('id(obj) is an opaque number per object that keeps nothing alive: a key made of it is not the object')
